@@ -49,6 +49,7 @@ func init() {
 			{ID: "C18-R28", Title: "a context that is over already is refused before the VM is marked running (shared with C06-R12)", Floor: 1, Run: finishedContextIsRefused},
 			{ID: "C18-R29", Title: "what a function counts up it counts down on every way out", Floor: 1, Run: whatAFunctionCountsUpItCountsDownOnEveryWayOut},
 			{ID: "C18-R30", Title: "a recorded length cuts the container it was taken from", Floor: 3, Run: aSnapshotLengthCutsTheContainerItWasTakenFrom},
+			{ID: "C18-R31", Title: "the rollback covers what compiling grows (shared with C17-R26)", Floor: 3, Run: theRollbackCoversWhatCompilingGrows},
 		},
 	})
 }
